@@ -63,6 +63,9 @@ func (g *Gen) GenSettings() Settings {
 	s.DurInt = r.Chance(30)
 	s.Prec = []int{-1, -1, -1, 0, 3, 10}[r.Intn(6)]
 	s.StackMarshaler = r.Chance(50)
+	if r.Chance(20) {
+		s.LevelStyle = 1 + r.Intn(3)
+	}
 	return s
 }
 
@@ -363,8 +366,10 @@ func (g *Gen) GenCase(depth int) *Case {
 		}
 		c.Steps = append(c.Steps, st)
 	}
-	levels := []int{-1, 0, 1, 1, 1, 2, 3, 4, 5, 6, 6, 8, -5, 127}
-	c.Level = levels[r.Intn(len(levels))]
+	c.Level = GenLevels[1+r.Intn(len(GenLevels)-1)]
+	if r.Chance(30) {
+		c.Level = 1
+	}
 	c.Ops = g.GenOps(depth, 6)
 	if r.Chance(5) {
 		c.Ops = append(c.Ops, Op{K: "discard"})
